@@ -95,6 +95,20 @@ structure Row where
   pcallers : List PEdge
   deriving Repr
 
+/-- Table encoding used by the generated module (keeps elaboration of ~25 000 call edges fast): one natural number per
+callee, little-endian base `2^13` digits `callee+1, caller₁+1, caller₂+1, …` (function ids are < 8191). -/
+def digitBase : Nat := 8192
+
+def digits : Nat → Nat → List Nat
+  | 0, _ => []
+  | fuel + 1, n => if n = 0 then [] else (n % digitBase) :: digits fuel (n / digitBase)
+
+/-- a callee with its callers outside try blocks; an ill-formed code (no digits) decodes to a row nobody matches -/
+def decodeRow (n : Nat) : Row :=
+  match digits (n.log2 / 13 + 1) n with
+  | [] => ⟨digitBase, [], []⟩
+  | d :: ds => ⟨d - 1, ds.map (· - 1), []⟩
+
 structure Prog where
   hier : Hier
   sites : List Site
